@@ -17,6 +17,7 @@ package main
 //     message corpus and the harness types, in the three encodings + text, both directions.
 
 import (
+	"github.com/ovh/kmip-go"
 	"bytes"
 	"encoding/json"
 	"fmt"
@@ -450,7 +451,17 @@ func c20FreshProbes() []c20Probe {
 		{"encode-gated-value", func() c20MsgOut {
 			return c20MsgOut{Class: "ok", Bytes: c20SynMarshal("ttlv", 0x540500, c20Gated{A: 1, B: "b", C: 2, D: &c20Leafs{I: 3}, E: []int32{4}, F: 5})}
 		}},
+		{"MarshalTTLV-gated-kmip-value", func() c20MsgOut { return c20MsgOut{Class: "ok", Bytes: append([]byte{}, ttlv.MarshalTTLV(c20GatedKmip())...)} }},
+		{"MarshalXML-gated-kmip-value", func() c20MsgOut { return c20MsgOut{Class: "ok", Bytes: append([]byte{}, ttlv.MarshalXML(c20GatedKmip())...)} }},
+		{"MarshalJSON-gated-kmip-value", func() c20MsgOut { return c20MsgOut{Class: "ok", Bytes: append([]byte{}, ttlv.MarshalJSON(c20GatedKmip())...)} }},
 	}
+}
+
+// c20GatedKmip: a real KMIP structure without header whose elements are gated from 1.2 and 1.4 on
+func c20GatedKmip() *kmip.CryptographicParameters {
+	t, salt := true, int32(16)
+	return &kmip.CryptographicParameters{BlockCipherMode: kmip.BlockCipherModeGCM, HashingAlgorithm: kmip.HashingAlgorithmSHA_256,
+		RandomIV: &t, IVLength: 12, TagLength: 16, SaltLength: &salt, MaskGenerator: kmip.MaskGeneratorMGF1}
 }
 
 // c20CheckFreshObjects: the probes give the same result on new objects before and after
@@ -475,6 +486,17 @@ func c20CheckFreshObjects(c *h.Ctx, refs []c20MsgOut) {
 		var in []byte
 		_ = c20GuardOut(func() c20MsgOut { in = c20SynMarshal("ttlv", 0x540501, m); return c20MsgOut{} })
 		check(after + " was encoded")
+		// ... and through the package-level functions, with a real KMIP message of that version
+		_ = c20GuardOut(func() c20MsgOut {
+			km := &kmip.RequestMessage{Header: kmip.RequestHeader{ProtocolVersion: kmip.ProtocolVersion{ProtocolVersionMajor: int32(v[0]), ProtocolVersionMinor: int32(v[1])}}}
+			_ = ttlv.MarshalTTLV(km)
+			_ = ttlv.MarshalXML(km)
+			_ = ttlv.MarshalJSON(km)
+			var back kmip.RequestMessage
+			_ = ttlv.UnmarshalTTLV(ttlv.MarshalTTLV(km), &back)
+			return c20MsgOut{}
+		})
+		check(after + " went through MarshalTTLV/XML/JSON and UnmarshalTTLV")
 		_ = c20GuardOut(func() c20MsgOut {
 			var d c20Hdr
 			hb := c20SynMarshal("ttlv", 0x540502, m.H)
